@@ -154,6 +154,7 @@ impl State {
                 let a = self.q(t[2], &parse_nums(&t[3..]));
                 a.split('/').map(|x| format!("{}|T|T", x)).collect::<Vec<_>>().join("/")
             }
+            "TMIX" => "T|T".into(),
             "FN" => exec_fn(false, &t[1..]),
             _ => "X".into(),
         }
